@@ -29,12 +29,12 @@ Proof. exact entry_refuses. Qed.
 Print Assumptions C13_refuses.
 
 (* the members load() parses: the manifest, every listed part of the main document and of every embedded object *)
-Theorem C13_members_root : forall m n, In n part_names -> in_manifest m n = true -> In n (load_reads m).
+Theorem C13_members_root : forall foreign m n, In n part_names -> in_manifest m n = true -> In n (load_reads foreign m).
 Proof. exact load_reads_root. Qed.
 Print Assumptions C13_members_root.
 
-Theorem C13_members_object : forall m p mtv n, In (p, mtv) m -> classify m p = IsObject -> In n part_names ->
-  in_manifest m (p ++ n) = true -> In (p ++ n) (load_reads m).
+Theorem C13_members_object : forall foreign m p mtv n, In (p, mtv) m -> classify foreign m p = IsObject -> In n part_names ->
+  in_manifest m (p ++ n) = true -> In (p ++ n) (load_reads foreign m).
 Proof. exact load_reads_object. Qed.
 Print Assumptions C13_members_object.
 
